@@ -124,6 +124,9 @@ def run_unit(unit, rec):
                 deltas = [(1e-4, 1e-4), (1e-6, 1e-6), (1e-3, 1e-3)]
             if solver == "clarabel" and (wname == "weighted" or nname == "given"):
                 continue
+            if solver == "clarabel" and sname in ("one-outside", "five-inside"):
+                # each constraint has its OWN tolerance: unequal deltas, decided with the accurate solver
+                deltas = [(1e-4, 1e-4), (1e-3, 1e-6), (1e-6, 1e-3)]
             for d1, dr in deltas:
                 neutral = None if nname == "default" else neutral_given
                 w = np.ones(2) if wname == "one" else np.array([1.0, 3.0])
@@ -179,9 +182,9 @@ def run_unit(unit, rec):
                     bad = ("c", "a scale is not positive")
                 elif np.max(np.abs(Bp - pred)) > 1e-9 * (1 + ext):
                     bad = ("b", "returned prediction is not the model's capture of the returned intensities")
-                elif np.max(np.abs(pred.sum(1) - sc[0] * Bsum)) > d1 + 2e-3 * scale_c:
+                elif np.max(np.abs(pred.sum(1) - sc[0] * Bsum)) > d1 + (2e-6 if solver == "clarabel" else 2e-3) * scale_c:
                     bad = ("d", "fitted total capture is not the target's total times the first scale")
-                elif np.max(np.abs((pred - sc[0] * NP) - sc[1] * BR)) > dr + 2e-3 * scale_c:
+                elif np.max(np.abs((pred - sc[0] * NP) - sc[1] * BR)) > dr + (2e-6 if solver == "clarabel" else 2e-3) * scale_c:
                     bad = ("e", "fitted offset from the neutral direction is not the target's offset times the second scale")
                 else:
                     if objective == "unity" and np.all(mg >= 1e-2 * ext):
